@@ -332,7 +332,7 @@ func main() {
 		run(c, gen(c, 0, n), "boundary", true)
 	}
 	// random small payloads through the model (Coq evaluates SHA-256/AES in the VM: keep them short)
-	for i := 0; i < c.N(14, 150); i++ {
+	for i := 0; i < c.N(24, 150); i++ {
 		run(c, gen(c, 0, 4*c.Rng.Intn(65)), "small", true)
 	}
 	// explicit MessageDataLen path (compression threshold set, payload below threshold)
@@ -373,6 +373,9 @@ func main() {
 	}
 	for _, n := range big {
 		for m := 0; m < 3; m++ {
+			if m == 2 && n > 8<<20 {
+				continue // proto.GZIP.Decode bounds the inflated size to 10 MiB (C22's concern); not a crypto round-trip matter
+			}
 			run(c, gen(c, m, n), "large(go-only)", false)
 		}
 	}
